@@ -343,8 +343,66 @@ def run(chk):
             seq_ok = src is not None and is_call(src, "Iterator::enumerate") and is_call(src[2][0], "slice::chunks")
     enum = seq_ok
     skip = [core.callee_of(t) for bb, t in tpk.calls() if names.call_is(t, "Iterator::skip", "Iterator::rev", "Iterator::step_by", "Iterator::zip")]
-    chk.ob("R4 sequence discipline", "R4|sender-numbers-from-enumerate", seq_ok and not skip, where(tpk), "ContHeader.seq = enumeration index of %s: %s" % (flow.term_str(src)[:120] if src else "?", seq_ok))
     ck = names.calls_to(tpk, "slice::chunks")
+    manual = None
+    if not seq_ok and not ck:
+        # the same numbering and chunking written as a counting loop: one transition table of the loop (flow.loop_steps) —
+        # a counter that starts at 0 and grows by one per packet numbers the packet pushed in that iteration, an offset that
+        # starts at 57 and advances by min(59, what is left) delimits its payload
+        Ls = flow.loops(tpk)
+        if len(Ls) == 1:
+            head = list(Ls)[0]
+            blocks = Ls[head]
+            cand = [i for i in range(tpk.arg_count + 1, len(tpk.locals))]
+            rws = [r for r in flow.loop_steps(p, tpk, head, blocks, cand) if r["conds"] is not None]
+            cont_rows = [r for r in rws if r["kind"] == "continue"]
+            pre = [b for b in tpk.preds().get(head, []) if b not in blocks]
+            IN = lambda l: ("in", l)
+            def plus(v, x, k):
+                v = N.norm(v)
+                if isinstance(v, tuple) and len(v) == 3 and v[0] == "field" and v[2] == "0":
+                    v = v[1]
+                return isinstance(v, tuple) and len(v) == 4 and v[0] == "binop" and v[1].startswith("Add") and ((v[2] == x and v[3] == ("const", k)) or (v[3] == x and v[2] == ("const", k)))
+            if cont_rows and len(pre) == 1:
+                init = lambda l: flow.simplify_term(Tt.place(l, (), pre[0], "t"))
+                seq_l = [l for l in cand if tpk.local_ty(l) in ("usize", "u8", "u32") and all(plus(r["state"][l], IN(l), 1) for r in cont_rows) and init(l) == ("const", 0)]
+                def adv(v, l):
+                    m = normal.min_of(N.norm(v))
+                    def total(x):
+                        # the payload's length, read directly or kept in a local the loop does not change
+                        if is_call(x, "Vec::len") or is_call(x, "slice::len"):
+                            return True
+                        if isinstance(x, tuple) and len(x) == 2 and x[0] == "in" and all(r["state"].get(x[1]) == x for r in cont_rows):
+                            i0 = init(x[1])
+                            return is_call(i0, "Vec::len") or is_call(i0, "slice::len")
+                        return False
+                    return m is not None and any(plus(x, IN(l), 59) for x in m) and any(total(x) for x in m)
+                off_l = [l for l in cand if tpk.local_ty(l) == "usize" and all(adv(r["state"][l], l) for r in cont_rows) and init(l) == ("const", 57)]
+                pk_l = [l for l in cand if all(isinstance(N.norm(r["state"][l]), tuple) and N.norm(r["state"][l])[:1] == ("upd",) and names.is_(N.norm(r["state"][l])[1], "Vec::push") for r in cont_rows)]
+                okm = len(seq_l) == 1 and len(off_l) == 1 and len(pk_l) == 1
+                if okm:
+                    for r in cont_rows:
+                        pushed = N.norm(r["state"][pk_l[0]])
+                        okm = okm and pushed[2] == IN(pk_l[0]) and len(pushed[3]) == 1
+                        item = pushed[3][0]
+                        f0 = N.norm(("field", item, "0"))
+                        f1 = N.norm(("field", item, "1"))
+                        seqv = find(f0, lambda y: isinstance(y, tuple) and len(y) == 4 and y[0] == "agg" and y[1].endswith("::ContHeader"))
+                        sq = dict(seqv[3]).get("seq") if seqv else None
+                        while isinstance(sq, tuple) and sq and (sq[0] == "payload" or sq[0] == "cast" or (len(sq) == 4 and sq[0] == "call" and (names.is_(sq[1], "TryInto::try_into") or names.is_(sq[1], "TryFrom::try_from") or names.is_(sq[1], "Result::unwrap")))):
+                            sq = sq[1] if sq[0] == "payload" else (sq[-1] if sq[0] == "cast" else sq[2][0])
+                        okm = okm and sq == IN(seq_l[0])
+                        # the payload of that packet: payload[offset .. min(len, offset + 59)]
+                        rg = f1[2][1] if is_call(f1, "Index::index") and len(f1[2]) == 2 else None
+                        dr = dict(rg[3]) if isinstance(rg, tuple) and len(rg) == 4 and rg[0] == "agg" and str(rg[1]).endswith("::Range") else {}
+                        okm = okm and dr.get("start") == IN(off_l[0]) and dr.get("end") is not None and adv(dr["end"], off_l[0])
+                manual = okm
+                if okm:
+                    src = ("loop", "counter _%d from 0, offset _%d from 57 by min(59, rest)" % (seq_l[0], off_l[0]))
+                    seq_ok = True
+    chk.ob("R4 sequence discipline", "R4|sender-numbers-from-enumerate", seq_ok and not skip, where(tpk), "ContHeader.seq = enumeration index of %s: %s" % (flow.term_str(src)[:120] if src else "?", seq_ok))
+    if manual is not None:
+        chk.ob("R4 sequence discipline", "R4|sender-chunk-sizes", bool(manual), where(tpk), "continuation chunks: offset starts at 57 and advances by min(59, remaining): %s" % bool(manual))
     if ck:
         ivt = intervals.Intervals(p, tpk)
         n = ivt.iv_operand(ivt.at(ck[0][0], "t"), ck[0][1]["args"][1]).exact()
@@ -381,13 +439,17 @@ def run(chk):
     chk.ob("R4 sequence discipline", "R4|reject-changes-nothing", rej_clean and untouched, where(ext), "no Err return is reachable after a write to self: %s" % untouched)
 
     # ---------------- R5
+    # send, with the functions declared inside it (a local `fn write_packet`) read as part of it; everything else stays a call
+    snd_raw = snd
+    snd = inline.inlined(p, snd, keep=(lambda cal: not cal.path.startswith(snd_raw.path + "::"),))
     Ts = flow.Terms(p, snd)
+    from . import layout as _lay16
     wr = [(bb, t) for bb, t in snd.calls() if names.call_is(t, "Write::write", "Write::write_all")]
-    okw = len(wr) == 1
-    if okw:
-        a = flow.op_place(wr[0][1]["args"][1])
-        d = flow.DefUse(snd).trace_copy(a[0]) if a else []
-        okw = any(snd.local_ty(l) == "[u8; 64]" for l in d)
+    okw = len(wr) >= 1
+    for bb_w, t_w in wr:
+        # what is written is the whole packet buffer: a zero-initialised [u8; 64] (however it is borrowed or re-sliced)
+        root_w = _lay16.root_of(N.norm(Ts.operand(t_w["args"][1], bb_w, "t")))
+        okw = okw and root_w == ("repeat", ("const", 0), "64")
     chk.ob("R5 full packets", "R5|send|writes-the-64-byte-buffer", okw, where(snd, wr[0][0]) if wr else where(snd), "the only Write::write argument is the [u8; 64] packet buffer: %s" % okw)
     # the tail of the buffer is zeroed — iter_mut().for_each(|b| *b = 0) or fill(0) — on the edge `index == last`, before encode
     zero_sites = []
@@ -417,32 +479,46 @@ def run(chk):
                 return True
         return False
     last = any(is_last_index(flow.eq_test(N.norm(t), l)) for sb, l, t in conds)
-    chk.ob("R5 full packets", "R5|send|tail-zeroed-on-last-packet-before-encode", zero and order and last, where(snd, fe[0]) if fe else where(snd), "zeroing closure: %s, guarded by i == last: %s, before encode: %s" % (zero, last, order))
+    if not last and fe:
+        # the other way to single out the last packet: it is popped off the list first, the rest is sent in a loop, then the
+        # buffer tail is zeroed and the popped packet is encoded — by the encode call that follows, after which no other runs
+        is_pop = lambda z: is_call(z, "Vec::pop")
+        encs = [(bb, t) for bb, t in snd.calls() if names.call_is(t, "PacketHeader::encode")]
+        after_z = snd.reachable(fe[0], follow_yield_drop=False)
+        finals = [(bb, t) for bb, t in encs if bb in after_z]
+        if len(finals) == 1:
+            eb, et_ = finals[0]
+            hdr = N.norm(Ts.operand(et_["args"][0], eb, "t"))
+            no_more = not any(bb2 in snd.reachable(snd.succs(eb), follow_yield_drop=False) for bb2, t2 in encs)
+            # the zeroed range starts at header length + data length of that same popped packet
+            zt = [t for bb, t in snd.calls() if bb == fe[0]][0]
+            rng = N.norm(Ts.operand(zt["args"][0], fe[0], "t"))
+            last = has(hdr, is_pop) and no_more and has(rng, is_pop) and has(rng, lambda z: is_call(z, "PacketHeader::len"))
+            order = order or (eb in after_z)
+    chk.ob("R5 full packets", "R5|send|tail-zeroed-on-last-packet-before-encode", zero and order and last, where(snd, fe[0]) if fe else where(snd), "zeroing of the unused tail: %s, applied to the last packet only (i == last, or the popped last element): %s, before it is encoded: %s" % (zero, last, order))
+    snd = snd_raw
 
     # ---------------- R6
-    rows = S.local_outcomes(new)
-    oks = [o for o in rows if o.variant[:1] == ("Ok",)]
-    I = C = K = U = None
-    guard_ok = bool(oks)
-    for o in oks:
-        g1 = [c for c in o.conds if c[0][0] == "binop" and c[0][1] == "Gt" and has(c[0], lambda y: is_call(y, "slice::len")) and c[0][3][0] == "const" and not has(c[0], lambda y: isinstance(y, tuple) and len(y) == 4 and y[0] == "call" and y[1].endswith("saturating_sub"))]
-        if not (g1 and flow.lab_false(g1[0][1])):
-            guard_ok = False
-        else:
-            U = g1[0][0][3][1]
+    # the size guard decided for every payload length: its conditions are comparisons of monotone functions of the length
+    # with constants, so the set of accepted lengths is found exactly from the thresholds (rules/monotone.py) — whichever
+    # way the guard is spelled
+    from . import monotone
+    rows = normal.rows(S, new, N, expand=True, deep=True)
+    LEN = None
+    for o in rows:
         for t, l, f, w in o.conds:
-            d = find(t, lambda y: isinstance(y, tuple) and y and y[0] == "binop" and y[1] == "Div")
-            if d is not None and t[0] == "binop" and t[1] == "Gt":
-                ss = find(d, lambda y: isinstance(y, tuple) and len(y) == 4 and y[0] == "call" and y[1].endswith("saturating_sub"))
-                if ss is not None and ss[2][1][0] == "const" and d[3][0] == "const" and t[3][0] == "const" and flow.lab_false(l):
-                    I, C, K = ss[2][1][1], d[3][1], t[3][1]
-    chk.ob("R6 size refusal", "R6|new|ok-only-past-both-guards", guard_ok and None not in (I, C, K), where(new), "Ok rows: %s" % [o.cond_strs() for o in oks][:2])
-    if None not in (I, C, K):
-        # accepted iff rest == 0 or floor(rest / C) + 1 <= K  <=>  len <= I + K*C - 1
-        largest = I + K * C - 1
-        need_cont = -(-(largest - I) // C)
-        chk.ob("R6 size refusal", "R6|new|largest-accepted-within-protocol", largest <= PROTO_MAX and need_cont <= 128 and (I, C) == (57, 59) and U == 65535, where(new),
-               "guard constants init=%s cont=%s max_cont=%s u16 guard=%s → largest accepted payload %d (protocol maximum %d), needing %d continuation packets" % (I, C, K, U, largest, PROTO_MAX, need_cont))
+            x = find(t, lambda y: is_call(y, "slice::len") and y[2][0] == ("param", 3))
+            if x is not None:
+                LEN = x
+    tab = [(o.variant[:1] == ("Ok",), [(t, l) for t, l, f, w in o.conds]) for o in rows]
+    acc_set = monotone.accept_set(tab, LEN) if LEN is not None else None
+    chk.ob("R6 size refusal", "R6|new|ok-only-past-both-guards", acc_set is not None and len(acc_set) == 1 and acc_set[0][0] == 0, where(new),
+           "accepted payload lengths (all lengths decided from the guard's thresholds): %s" % (acc_set if acc_set is not None else "the guard is not a combination of monotone length tests: %s" % [o.cond_strs() for o in rows][:2]))
+    if acc_set:
+        largest = acc_set[-1][1]
+        need_cont = -(-(largest - 57) // 59) if largest > 57 else 0
+        chk.ob("R6 size refusal", "R6|new|largest-accepted-within-protocol", len(acc_set) == 1 and largest <= PROTO_MAX and largest <= 65535 and need_cont <= 128 and largest == 57 + 128 * 59 - 1, where(new),
+               "largest accepted payload %d (protocol maximum %d, length field maximum 65535), needing %d continuation packets of 59 bytes after the first 57" % (largest, PROTO_MAX, need_cont))
     chk.floor("R1", 3)
     chk.floor("R2", 2)
     chk.floor("R3", 15)
